@@ -145,14 +145,32 @@ func TestC04Grid(t *testing.T) {
 	curRun = r
 	semis := []int{-13, -1, 0, 1, 13}
 	idx := 0
+	// first the channel grid (every channel, a few semitone values), then the pitch grid (every semitone shift -30..30 against
+	// every octave -13..13 on one channel each: octaves and semitones that cancel, or almost)
+	type cell struct{ oct, semi, ch int }
+	var cells []cell
 	for oct := -12; oct <= 12; oct++ {
 		for _, semi := range semis {
 			for ch := 1; ch <= 16; ch++ {
+				cells = append(cells, cell{oct, semi, ch})
+			}
+		}
+	}
+	nChannelGrid := len(cells)
+	for oct := -13; oct <= 13; oct++ {
+		for semi := -30; semi <= 30; semi++ {
+			cells = append(cells, cell{oct, semi, 1 + (oct+13+semi+30)%16})
+		}
+	}
+	for ci, cl := range cells {
+		oct, semi, ch := cl.oct, cl.semi, cl.ch
+		{
+			{
 				idx++
 				if idx%r.Shards != r.Shard {
 					continue
 				}
-				if !r.Thorough() && (ch%4 != idx%4) {
+				if !r.Thorough() && ci < nChannelGrid && (ch%4 != idx%4) {
 					continue // quick: a quarter of the channels per (octave, semitone)
 				}
 				d := &Desc{Mode: "off", Exit: []uint16{}, Octave: oct, Semitone: semi, Channel: ch, Velocity: 1 + (idx % 127), DefMapping: "G", Colors: colorPalette}
